@@ -395,6 +395,10 @@ class FieldInverseZkif(_FieldInverse):
     name = ZKIF + ":fieldinverse"
     module = ZKIF
     switchable = True
+    # C19: "the reported backend name identifies ... the field it works in": the derived zkinterface backends are this
+    # module after set_modulus, so every field-dependent function must follow the switch
+    vprops = ("C13", "C11", "C19")
+    fprops = ("C13", "C11", "C19")
 
 
 @register
